@@ -171,6 +171,12 @@ where
     ) -> Result<Running, SessionInnerError> {
         let SessionFrame { channel, body } = incoming;
         let channel = IncomingChannel(channel);
+        // Nothing may follow the local End on this channel. What was still in flight from the
+        // peer is processed, but no frame is written in answer to it.
+        let end_sent = matches!(
+            self.session.local_state(),
+            SessionState::EndSent | SessionState::Discarding
+        );
         match body {
             SessionFrameBody::Begin(begin) => {
                 self.session.on_incoming_begin(channel, begin)?;
@@ -180,12 +186,14 @@ where
             }
             SessionFrameBody::Flow(flow) => {
                 if let Some(outgoing_item) = self.session.on_incoming_flow(flow).await? {
-                    send_outgoing_item(
-                        &self.outgoing,
-                        outgoing_item,
-                        self.session.connection_stop_reason(),
-                    )
-                    .await?;
+                    if !end_sent {
+                        send_outgoing_item(
+                            &self.outgoing,
+                            outgoing_item,
+                            self.session.connection_stop_reason(),
+                        )
+                        .await?;
+                    }
                 }
             }
             SessionFrameBody::Transfer {
@@ -202,12 +210,14 @@ where
                     .on_incoming_transfer(performative, payload)
                     .await?
                 {
-                    let frame = self.session.on_outgoing_disposition(disposition)?;
-                    self.outgoing.send(frame).await.map_err(|_| {
-                        SessionInnerError::ConnectionStopped(connection_stop_reason_or_closed(
-                            self.session.connection_stop_reason(),
-                        ))
-                    })?;
+                    if !end_sent {
+                        let frame = self.session.on_outgoing_disposition(disposition)?;
+                        self.outgoing.send(frame).await.map_err(|_| {
+                            SessionInnerError::ConnectionStopped(connection_stop_reason_or_closed(
+                                self.session.connection_stop_reason(),
+                            ))
+                        })?;
+                    }
                 }
 
                 // Re-advertise the session window (session-only flow) once half of the
@@ -215,30 +225,34 @@ where
                 // go-amqp's proactive top-up. This keeps the peer's send window sliding
                 // even when no link-level flow is generated.
                 if let Some(outgoing_item) = self.session.maybe_outgoing_session_flow() {
-                    send_outgoing_item(
-                        &self.outgoing,
-                        outgoing_item,
-                        self.session.connection_stop_reason(),
-                    )
-                    .await?;
+                    if !end_sent {
+                        send_outgoing_item(
+                            &self.outgoing,
+                            outgoing_item,
+                            self.session.connection_stop_reason(),
+                        )
+                        .await?;
+                    }
                 }
             }
             SessionFrameBody::Disposition(disposition) => {
                 if let Some(dispositions) = self.session.on_incoming_disposition(disposition)? {
-                    for disposition in dispositions {
-                        let disposition = self.session.on_outgoing_disposition(disposition)?;
-                        self.outgoing
-                            .send(disposition)
-                            .await
-                            // The receiving half must have dropped, and thus the `Connection`
-                            // event loop has stopped. It should be treated as an io error
-                            .map_err(|_| {
-                                SessionInnerError::ConnectionStopped(
-                                    connection_stop_reason_or_closed(
-                                        self.session.connection_stop_reason(),
-                                    ),
-                                )
-                            })?;
+                    if !end_sent {
+                        for disposition in dispositions {
+                            let disposition = self.session.on_outgoing_disposition(disposition)?;
+                            self.outgoing
+                                .send(disposition)
+                                .await
+                                // The receiving half must have dropped, and thus the `Connection`
+                                // event loop has stopped. It should be treated as an io error
+                                .map_err(|_| {
+                                    SessionInnerError::ConnectionStopped(
+                                        connection_stop_reason_or_closed(
+                                            self.session.connection_stop_reason(),
+                                        ),
+                                    )
+                                })?;
+                        }
                     }
                 }
             }
